@@ -657,6 +657,10 @@ func ReadPending(path string) (job string, idx int64, op string, input []byte, e
 var CallLimit = 20 * time.Second
 
 func (c *Ctx) watchdog() {
+	if FakeTime {
+		// the virtual clock stands still while a call runs; the driver's wall limit remains
+		return
+	}
 	var last int64
 	var since time.Time
 	for {
